@@ -338,6 +338,75 @@ where
     )
 }
 
+/// deep-state block: one opcode chosen greedily (backed by an opener) for thousands of steps, so
+/// that thousands of MARKs are pending / the stack is thousands deep / the memo has thousands of
+/// entries when the collapse tail starts. `sizes` = opcode counts; the mandatory cases (MARK, DUP,
+/// pushes, memo writers per protocol) run at every size, `n_sampled` (X, Y) pairs at the first.
+pub fn deep_block<F>(n_sampled: usize, seed: u64, trace: verif::Config, sizes: &[usize], check: &F) -> Acc
+where
+    F: Fn(&Config, &CaseResult, &mut Acc) + Sync,
+{
+    let mandatory: [(u8, u8); 10] = [
+        (b'(', b'N'),
+        (b'2', b'N'),
+        (b'N', b'('),
+        (0x94, b'N'),
+        (b'q', b'N'),
+        (b'p', b'N'),
+        (b']', b'('),
+        (0x85, b'N'),
+        (b'a', b'2'),
+        (b't', b'('),
+    ];
+    let pairs = deep_pairs();
+    let mut cases: Vec<(u8, u8, u8, usize)> = Vec::new();
+    for &t in sizes {
+        for proto in 0..6u8 {
+            for &(x, y) in &mandatory {
+                cases.push((proto, x, y, t));
+            }
+        }
+    }
+    let mut rng = Rng::new(seed ^ 0xDEE9);
+    for i in 0..n_sampled {
+        let (x, y) = pairs[rng.below(pairs.len() as u64) as usize];
+        cases.push(((5 - i % 6) as u8, x, y, sizes[0]));
+    }
+    par_run(
+        cases.len(),
+        Acc::new,
+        |i, acc| {
+            let (proto, x, y, t) = cases[i];
+            let base = Config {
+                ext: i % 2 == 0,
+                buf: i % 3 == 0,
+                ..Config::default_for(proto, Entropy::Bytes(vec![]))
+            };
+            let st = steer_long(&base, t, i % 2 == 1, 48, greedy_policy(x, y));
+            let res = run_case(&st.cfg, Some(trace));
+            acc.count("deep_cases", 1);
+            acc.count("deep_steering_runs", st.runs as u64);
+            acc.count("deep_steps_following_policy", st.matched as u64);
+            if st.complete {
+                acc.count("deep_cases_steered_to_the_end", 1);
+            }
+            if let Outcome::Ok(b) = &res.outcome {
+                if let Ok(lx) = lex(b) {
+                    let nx = lx.ins.iter().filter(|k| k.op.code == x).count();
+                    acc.max("max_deep_occurrences_of_one_opcode", nx as u64);
+                    if nx > 4096 {
+                        acc.count("deep_cases_one_opcode_over_4096_times", 1);
+                    }
+                    let marks = lx.ins.iter().filter(|k| k.op.code == b'(').count();
+                    acc.max("max_deep_marks_in_one_pickle", marks as u64);
+                }
+            }
+            check(&st.cfg, &res, acc);
+        },
+        |a, b| a.merge(b),
+    )
+}
+
 pub fn c03(thorough: bool, seed: u64) -> CheckOutput {
     let n = if thorough { 600_000 } else { 40_000 };
     let sp = Space::safe();
@@ -365,6 +434,8 @@ pub fn c03(thorough: bool, seed: u64) -> CheckOutput {
     acc.merge(st);
     let lb = long_block(if thorough { 2400 } else { 240 }, seed, tr, &check_c03);
     acc.merge(lb);
+    let deep = deep_block(if thorough { 1500 } else { 150 }, seed, tr, &[4200], &check_c03);
+    acc.merge(deep);
     let min_exec = if thorough { 1000 } else { 50 };
     for name in &TYPED[..13] {
         if acc.get(&format!("executed_{}", name)) < min_exec {
@@ -595,6 +666,8 @@ pub fn c17(thorough: bool, seed: u64) -> CheckOutput {
     acc.merge(st);
     let lb = long_block(if thorough { 1200 } else { 120 }, seed, tr, &check_c17);
     acc.merge(lb);
+    let deep = deep_block(if thorough { 1200 } else { 120 }, seed, tr, &[if thorough { 2500 } else { 1500 }], &check_c17);
+    acc.merge(deep);
     if acc.get("steps_compared") < 10_000 {
         acc.inconclusive.push("too few step snapshots compared (hook stream empty?)".into());
     }
@@ -768,6 +841,10 @@ pub fn c11(thorough: bool, seed: u64) -> CheckOutput {
         step_limit: 0,
     };
     let mut acc = bulk(n, seed, &sp, Some(tr), check_c11);
+    // deep-state block: thousands of pending MARKs / stack entries when the collapse tail starts
+    let deep_sizes: Vec<usize> = if thorough { vec![4200, 11_000, 20_500] } else { vec![4200, 20_500] };
+    let deep = deep_block(if thorough { 1500 } else { 150 }, seed, tr, &deep_sizes, &check_c11);
+    acc.merge(deep);
     // front end: --min-opcodes / --max-opcodes through the built CLI (unseeded batch runs); only the
     // hook-free bound on the decoded total applies there
     if std::env::var("PFV_CLI").is_ok() {
